@@ -15,7 +15,8 @@ RULE = ('Differential across processes: Hypothesis draws (shell model, configura
         'for the whole batch), in a fresh process per case, and as the second build after a user has '
         'extended own NamespaceIds / Fqn values (made from every identifier occurring in the output) '
         'in place, and in another working directory where the configured file name is a symbolic link '
-        'to a differently named file; oracle: all variants '
+        'to a differently named file, and in processes started with -O / -OO, with an ASCII (C) locale, '
+        'and from a secondary thread; oracle: all variants '
         'agree on file names, sha256 of the contents and reported hashes (or all fail with the same '
         'error class), and every reported hash equals md5 of the UTF-8 contents. Non-trivial: >= 2 '
         'explicit names in a selection; distinct by hash of (model, spec).')
@@ -29,16 +30,30 @@ FSENV = ('other working directory in which the configured file name exists as a 
 NOISE = 'second build after unrelated use of the public helpers (own values extended in place)'
 
 
-def run_worker(cases, hashseed, perm, shared_builder=False, user_noise=False, fs_env=False):
+PROC_MODES = {
+    'O': 'interpreter started with -O (assert statements and __debug__ blocks are not executed)',
+    'OO': 'interpreter started with -OO (additionally no docstrings)',
+    'clocale': 'LANG=C / LC_ALL=C, PYTHONUTF8=0, locale coercion off (ASCII locale encoding)',
+    'thread': 'build performed by a secondary thread of the process',
+}
+
+
+def run_worker(cases, hashseed, perm, shared_builder=False, user_noise=False, fs_env=False, mode=None):
     env = dict(os.environ)
     env['PYTHONHASHSEED'] = str(hashseed)
+    flags = []
+    if mode in ('O', 'OO'):
+        flags = ['-' + mode]
+    if mode == 'clocale':
+        env.update({'LANG': 'C', 'LC_ALL': 'C', 'PYTHONUTF8': '0', 'PYTHONCOERCECLOCALE': '0',
+                    'PYTHONIOENCODING': 'utf-8'})
     env['PYTHONPATH'] = os.pathsep.join([REPO_SRC, VERIF_DIR, os.path.join(VERIF_DIR, '.deps')])
     env['PYTHONDONTWRITEBYTECODE'] = '1'
     data = ''.join(json.dumps({'model': c['sm']['model'], 'spec': c['spec'], 'perm': perm,
                                'shared_builder': shared_builder, 'user_noise': user_noise,
-                               'fs_env': fs_env}) + '\n'
+                               'fs_env': fs_env, 'mode': mode}) + '\n'
                    for c in cases)
-    r = subprocess.run([sys.executable, '-m', 'vf.worker'], input=data, capture_output=True,
+    r = subprocess.run([sys.executable] + flags + ['-m', 'vf.worker'], input=data, capture_output=True,
                        text=True, env=env, cwd=VERIF_DIR, timeout=3600, check=False)
     lines = [json.loads(l) for l in r.stdout.splitlines() if l.strip()]
     if r.returncode != 0 or len(lines) != len(cases) or any('harness_error' in l for l in lines):
@@ -93,6 +108,8 @@ def check_case(case):
             variants.append((f'hashseed={hs}/order={perm}', run_worker([case], hs, perm)[0]))
     variants.append((NOISE, run_worker([case], 0, 0, False, True)[0]))
     variants.append((FSENV, run_worker([case], 0, 0, False, False, True)[0]))
+    for mode, text in PROC_MODES.items():
+        variants.append((text, run_worker([case], 0, 0, mode=mode)[0]))
     compare(case, variants)
 
 
@@ -125,7 +142,9 @@ def run(ctx):
         shared_f = ex.submit(run_worker, cases, 0, 0, True)  # one Builder for all cases
         noise_f = ex.submit(run_worker, cases, 0, 0, False, True)
         fsenv_f = ex.submit(run_worker, cases, 0, 0, False, False, True)
+        modes_f = {m: ex.submit(run_worker, cases, 0, 0, mode=m) for m in PROC_MODES}
         shared, noise, fsenv = shared_f.result(), noise_f.result(), fsenv_f.result()
+        modes = {m: f.result() for m, f in modes_f.items()}
     seen = set()
     for i, case in enumerate(cases):
         nt = n_explicit(case['spec']) >= 2
@@ -137,6 +156,7 @@ def run(ctx):
         variants.append(('one Builder instance reused for the whole batch', shared[i]))
         variants.append((NOISE, noise[i]))
         variants.append((FSENV, fsenv[i]))
+        variants += [(PROC_MODES[m], modes[m][i]) for m in PROC_MODES]
         try:
             compare(case, variants)
         except Fail as f:
